@@ -557,7 +557,14 @@ def check(ctx):
         ev += 1
         if r.get("panic") or not r.get("parse_err"):
             problems.append(("text without the package/type header (%s) is not reported as an error" % gid, {"text": gid}, True))
-    rd_cov = reader_stream(ctx, bd, problems)
+    try:
+        rd_cov = reader_stream(ctx, bd, problems)
+    except RuntimeError as e:
+        # the reader's executable side lives in the files that hold its proofs: when one of them no longer checks
+        # (already reported through `broken`) the stream cannot be extracted; the other streams still search
+        rd_cov = dict(reader_files=0, reader_agree=0, reader_skipped_not_wellformed=0, reader_seed=None, reader_not_run=str(e)[-400:])
+        if not broken:
+            raise
     ev += rd_cov["reader_files"]
     nontriv += rd_cov["reader_agree"]
     rep = 0
